@@ -61,6 +61,7 @@ type inst struct {
 	edits map[string][]edit // filename -> edits
 	seq   int
 	hook  string // local import name
+	skip  map[ast.Node]bool // channel operations inside a select that has a default clause
 }
 
 func main() {
@@ -96,7 +97,7 @@ func main() {
 		}
 		os.Exit(3) // the tree under test does not compile
 	}
-	in := &inst{pkg: p, fset: p.Fset, edits: map[string][]edit{}, hook: "simhook"}
+	in := &inst{pkg: p, fset: p.Fset, edits: map[string][]edit{}, hook: "simhook", skip: map[ast.Node]bool{}}
 	in.rep.Package = p.PkgPath
 	for i, f := range p.Syntax {
 		name := p.CompiledGoFiles[i]
@@ -228,13 +229,50 @@ func (in *inst) file(name string, f *ast.File) {
 				}
 			case *ast.GoStmt:
 				in.unsupported("go statement", x.Pos())
-			case *ast.SendStmt:
-				in.unsupported("channel send", x.Pos())
 			case *ast.SelectStmt:
-				in.unsupported("select", x.Pos())
+				hasDefault := false
+				for _, c := range x.Body.List {
+					if cc, ok := c.(*ast.CommClause); ok && cc.Comm == nil {
+						hasDefault = true
+					}
+				}
+				if !hasDefault {
+					in.unsupported("select without default (can block)", x.Pos())
+				}
+				// a select with a default clause never blocks: its channel operations stay as they are
+				for _, c := range x.Body.List {
+					if cc, ok := c.(*ast.CommClause); ok && cc.Comm != nil {
+						ast.Inspect(cc.Comm, func(m ast.Node) bool {
+							if m != nil {
+								in.skip[m] = true
+							}
+							return true
+						})
+					}
+				}
+				in.seamAt("select-with-default", x.Pos())
+			case *ast.SendStmt:
+				if !in.skip[x] {
+					// ch <- v  ->  simhook.Send(ch, v): cooperative, never blocks the token scheduler
+					in.add(name, x.Pos(), x.Chan.Pos(), in.hook+".Send(")
+					in.add(name, x.Chan.End(), x.Value.Pos(), ", ")
+					in.add(name, x.End(), x.End(), ")")
+					in.seamAt("channel send", x.Pos())
+				}
+			case *ast.AssignStmt:
+				if len(x.Lhs) == 2 && len(x.Rhs) == 1 {
+					if u, ok := x.Rhs[0].(*ast.UnaryExpr); ok && u.Op == token.ARROW && !in.skip[u] {
+						in.add(name, u.Pos(), u.X.Pos(), in.hook+".Recv2(")
+						in.add(name, u.End(), u.End(), ")")
+						in.skip[u] = true
+						in.seamAt("channel receive (v, ok)", x.Pos())
+					}
+				}
 			case *ast.UnaryExpr:
-				if x.Op == token.ARROW {
-					in.unsupported("channel receive", x.Pos())
+				if x.Op == token.ARROW && !in.skip[x] {
+					in.add(name, x.Pos(), x.X.Pos(), in.hook+".Recv(")
+					in.add(name, x.End(), x.End(), ")")
+					in.seamAt("channel receive", x.Pos())
 				}
 			}
 			in.expr(name, n, &timeUsed)
